@@ -95,6 +95,8 @@ def corr(ctx):
     tabs = c14._load(ctx)
     for name, (inst, pts, lo, hi) in tabs.items():
         ops.append(Op("deftable %s %d %s" % (name, inst.b, ";".join("%d,%d,%d" % p for p in pts)), "ok", nontrivial=False))
+    import copy
+    pristine = {name: (copy.deepcopy(inst.mod), copy.deepcopy(inst.demod)) for name, (inst, pts, lo, hi) in tabs.items() if inst.memory}   # never used in training mode
     for name, (inst, pts, lo, hi) in tabs.items():
         if inst.kind == "pi4" and name.endswith("_b"):
             continue
@@ -122,6 +124,53 @@ def corr(ctx):
                 _CASES[line] = (name, bits)
                 ops.append(Op(line, impl, nontrivial=any(bits), info={"site": site, "config": dict(cfg, layout=layout)}, prop_ok=ok))
                 ctx.count("rt_" + inst.kind)
+        # histories: earlier use of the same objects (training / evaluation mode, odd / even symbol counts, batched)
+        # must not matter after reset_state() + eval()
+        if inst.memory:
+            rng = ctx.rng
+            for mode in ("train", "eval"):
+                for nprior in (1, 2, 3):
+                    for order in ("reset-eval", "eval-reset"):
+                        if order == "eval-reset" and (mode == "eval" or nprior == 2):
+                            continue
+                        bits = [rng.getrandbits(1) for _ in range(inst.b * rng.randint(2, 6))]
+                        prior = torch.tensor([[rng.getrandbits(1) for _ in range(inst.b * nprior)]], dtype=torch.float32)
+                        try:
+                            for m_ in (inst.mod, inst.demod):
+                                m_.train(mode == "train")
+                            try:
+                                with torch.no_grad():
+                                    inst.demod(inst.mod(prior))
+                            except (ValueError, RuntimeError, IndexError):
+                                pass      # a too-short earlier call may be refused; the state it leaves behind still must not matter
+                            if order == "eval-reset":
+                                for m_ in (inst.mod, inst.demod):
+                                    m_.eval()
+                            out, nsym = _rt(inst, torch.tensor([bits], dtype=torch.float32))
+                            impl = bstr(out.reshape(1, -1)[0].tolist())
+                        except (ValueError, RuntimeError, IndexError):
+                            impl = "reject"
+                        finally:
+                            for m_ in (inst.mod, inst.demod):
+                                m_.eval()
+                        want = expected(inst, bits)
+                        try:
+                            pm, pd = copy.deepcopy(pristine[name][0]), copy.deepcopy(pristine[name][1])
+                            pm.eval(); pd.eval()
+                            with torch.no_grad():
+                                fresh = bstr(pd(pm(torch.tensor([bits], dtype=torch.float32))).reshape(1, -1)[0].tolist())
+                        except (ValueError, RuntimeError, IndexError):
+                            fresh = "reject"
+                        hcfg = dict(cfg, layout="after-history", history="%s mode, %d symbols, %s" % (mode, nprior, order))
+                        if fresh == bstr(want):
+                            line = line_for(inst, bits)
+                            _CASES[line] = (name, bits)
+                            ops.append(Op(line, impl, nontrivial=True, info={"site": site, "config": hcfg}, prop_ok=(impl == bstr(want))))
+                        else:
+                            # an instance inside a listed finding (static label mismatch): the history must still not matter
+                            ops.append(Op("rtoq -", "-", nontrivial=False, prop_ok=(impl == fresh),
+                                          info={"site": "modulations:%s.history" % inst.kind, "config": dict(hcfg, bits=bstr(bits), impl=impl, fresh=fresh)}))
+                        ctx.count("history_" + inst.kind)
         # rejection of a non-multiple length
         if inst.b > 1 and inst.kind in ("qpsk", "psk", "qam", "pam"):
             bits = [1] * (inst.b + 1)
@@ -159,6 +208,10 @@ def search(ctx, mismatches, broken, prop_fail):
             continue
         seen.add(key)
         name, bits = _CASES.get(pf["op"], (cfg.get("inst"), None))
+        if str(pf["info"].get("site")).endswith(".history"):
+            out.append({"site": pf["info"]["site"], "config": cfg, "kind": "failing-input", "ops": [],
+                        "what": "%s %s: after earlier use (%s) followed by reset_state() and eval(), bits %s come back as %s; a fresh pair returns %s" % (cfg.get("kind"), cfg.get("inst"), cfg.get("history"), cfg.get("bits"), cfg.get("impl"), cfg.get("fresh"))})
+            continue
         what = "%s %s: noise-free round trip of bits %s returns %s" % (cfg.get("kind"), cfg.get("inst") or "", bstr(bits) if bits else "(see config)", pf["impl"] if pf["impl"] != "-" else cfg.get("impl"))
         out.append({"site": pf["info"]["site"], "config": cfg, "what": what, "ops": [pf["op"]], "impl_output": pf["impl"], "kind": "failing-input"})
     return out[:40]
